@@ -11,11 +11,12 @@ import (
 // order, schedule, faults) written out. Executing a plan does not involve any
 // generator code.
 type Plan struct {
-	Property string `json:"property"`
-	Seed     uint64 `json:"seed"`
-	Index    int    `json:"index"`
-	Profile  string `json:"profile,omitempty"`
-	Ops      []*Op  `json:"ops"`
+	Property string   `json:"property"`
+	Seed     uint64   `json:"seed"`
+	Index    int      `json:"index"`
+	Profile  string   `json:"profile,omitempty"`
+	Tags     []string `json:"tags,omitempty"` // workload dimensions drawn for this plan (counted in the evidence)
+	Ops      []*Op    `json:"ops"`
 }
 
 type Op struct {
@@ -29,7 +30,10 @@ type Op struct {
 	Raw       *string         `json:"raw,omitempty"`    // body that is not well-formed JSON
 	RawB64    string          `json:"rawB64,omitempty"` // body that is not valid UTF-8
 	NoBody    bool            `json:"noBody,omitempty"`
-	Transport *Transport      `json:"transport,omitempty"`
+	Pad       int             `json:"pad,omitempty"`     // the body is blown up by this many bytes when sent (kept out of the plan text)
+	PadKind   string          `json:"padKind,omitempty"` // space: JSON whitespace after the value | field: an unknown string field
+	padded    []byte
+	Transport *Transport `json:"transport,omitempty"`
 
 	// lib
 	Slack    int    `json:"slack,omitempty"`
@@ -69,20 +73,20 @@ type Transport struct {
 
 // Expect binds oracles to an operation.
 type Expect struct {
-	Class    string   `json:"class,omitempty"`    // ok | reject | any | none
-	SameAs   string   `json:"sameAs,omitempty"`   // same verdict class as that op; byte-identical when accepted
-	SameResultAs string `json:"sameResultAs,omitempty"` // same verdict class; identical `result` when accepted
-	Contains []string `json:"contains,omitempty"` // the error message must contain all of these
-	C07      *C07Meta `json:"c07,omitempty"`      // pipeline invariants (what the generator knows by construction)
-	PrefixOf string   `json:"prefixOfFull,omitempty"`
-	PrefixN  int      `json:"prefixN,omitempty"`
-	C09      bool     `json:"c09,omitempty"` // input untouched, report fidelity
-	C08      *C08Meta `json:"c08,omitempty"`
-	Schema   bool     `json:"schema,omitempty"`
-	EchoReq  bool     `json:"echoReq,omitempty"` // a 400 must echo the request as received
-	Canary   bool     `json:"canary,omitempty"`
-	Name     string   `json:"name,omitempty"`     // name of the violated constraint / hostile body kind (part of the failure-class key)
-	NoShrink bool     `json:"noShrink,omitempty"` // the minimiser must not reduce this request's body
+	Class        string   `json:"class,omitempty"`        // ok | reject | any | none
+	SameAs       string   `json:"sameAs,omitempty"`       // same verdict class as that op; byte-identical when accepted
+	SameResultAs string   `json:"sameResultAs,omitempty"` // same verdict class; identical `result` when accepted
+	Contains     []string `json:"contains,omitempty"`     // the error message must contain all of these
+	C07          *C07Meta `json:"c07,omitempty"`          // pipeline invariants (what the generator knows by construction)
+	PrefixOf     string   `json:"prefixOfFull,omitempty"`
+	PrefixN      int      `json:"prefixN,omitempty"`
+	C09          bool     `json:"c09,omitempty"` // input untouched, report fidelity
+	C08          *C08Meta `json:"c08,omitempty"`
+	Schema       bool     `json:"schema,omitempty"`
+	EchoReq      bool     `json:"echoReq,omitempty"` // a 400 must echo the request as received
+	Canary       bool     `json:"canary,omitempty"`
+	Name         string   `json:"name,omitempty"`     // name of the violated constraint / hostile body kind (part of the failure-class key)
+	NoShrink     bool     `json:"noShrink,omitempty"` // the minimiser must not reduce this request's body
 }
 
 // C07Meta: structure of the request the oracles need (not expectations about values).
@@ -121,10 +125,47 @@ type FreqSpec struct {
 	P        float64         `json:"p"`
 	N        int             `json:"n"`
 	SeedSeed uint64          `json:"seedSeed"`
+	SeedMode string          `json:"seedMode,omitempty"` // "" random 52-bit seeds | seq: 1,2,3.. from a small base | seq-large: consecutive from a random base | neg: -1,-2,.. | step: multiples of 1000
 	Sigma    float64         `json:"sigma"`
 }
 
 func (o *Op) BodyBytes() []byte {
+	if o.Pad > 0 {
+		if o.padded == nil {
+			o.padded = padBody(o.plainBody(), o.Pad, o.PadKind)
+		}
+		return o.padded
+	}
+	return o.plainBody()
+}
+
+// padBody makes a large request out of a small one without changing what it says: JSON
+// whitespace, or one more unknown field (clients send those, they are ignored).
+func padBody(b []byte, n int, kind string) []byte {
+	if kind == "field" && len(b) > 2 && b[0] == '{' {
+		out := make([]byte, 0, len(b)+n+16)
+		out = append(out, `{"comment":"`...)
+		for i := 0; i < n; i++ {
+			out = append(out, 'x')
+		}
+		out = append(out, `",`...)
+		return append(out, b[1:]...)
+	}
+	out := make([]byte, 0, len(b)+n)
+	if kind == "lead" {
+		for i := 0; i < n; i++ {
+			out = append(out, ' ')
+		}
+		return append(out, b...)
+	}
+	out = append(out, b...)
+	for i := 0; i < n; i++ {
+		out = append(out, " \n"[i%2])
+	}
+	return out
+}
+
+func (o *Op) plainBody() []byte {
 	if o.NoBody {
 		return nil
 	}
@@ -170,9 +211,9 @@ type Violation struct {
 // Replay is what a replay file holds.
 type Replay struct {
 	Property string      `json:"property"`
-	Mode     string      `json:"mode"`              // plan | cross | race
-	Plans    []*Plan     `json:"plans"`             // executed in order in one fresh node
-	Alone    *Plan       `json:"alone,omitempty"`   // cross: executed alone in another fresh node and compared
+	Mode     string      `json:"mode"`            // plan | cross | race
+	Plans    []*Plan     `json:"plans"`           // executed in order in one fresh node
+	Alone    *Plan       `json:"alone,omitempty"` // cross: executed alone in another fresh node and compared
 	Expected *Violation  `json:"expected"`
 	Note     string      `json:"note,omitempty"`
 	Race     *RaceReplay `json:"race,omitempty"`
